@@ -2746,7 +2746,18 @@ func c06R8(c *Ctx, r *Report) {
 				}
 			}
 		}
-		if hasMap && hasArr {
+		// … and reports for immutable sources (the helper for the other direction, a constant bound to a
+		// variable's storage, tests for MutabilityAllowed only)
+		mentionsConstant := false
+		ast.Inspect(fn.Decl.Body, func(x ast.Node) bool {
+			if id, ok := x.(*ast.Ident); ok {
+				if o, ok := info.Uses[id].(*types.Const); ok && o.Name() == "MutabilityConstant" {
+					mentionsConstant = true
+				}
+			}
+			return true
+		})
+		if hasMap && hasArr && mentionsConstant {
 			helper = fn
 		}
 	}
